@@ -1,4 +1,5 @@
 import JugModel.Props.C19
+import JugModel.Props.KALock
 #print axioms Jug.C19.round_live
 #print axioms Jug.C19.live_never_failed
 #print axioms Jug.C19.start_inv
@@ -10,3 +11,7 @@ import JugModel.Props.C19
 #print axioms Jug.C19.loop_matches
 #print axioms Jug.C19.exits_match
 #print axioms Jug.C19.helper_started_plainly
+#print axioms Jug.KALockProps.held_lock_has_helper
+#print axioms Jug.KALockProps.get_spec
+#print axioms Jug.KALockProps.let_go_stops_helper
+#print axioms Jug.KALockProps.no_orphans_without_interference
